@@ -369,8 +369,14 @@ func parseArgList(args []IntrospectionInputValue) ast.ArgumentDefinitionList {
 }
 
 func parseTypeRef(response *IntrospectionTypeRef) *ast.Type {
+	// type reference is cut off (it's nested deeper than introspection query asks for),
+	// unnamed type will be rejected when schema is loaded
+	if response == nil {
+		return ast.NamedType("", &ast.Position{})
+	}
+
 	// we could have a non-null list of a field
-	if response.Kind == "NON_NULL" && response.OfType.Kind == "LIST" {
+	if response.Kind == "NON_NULL" && response.OfType != nil && response.OfType.Kind == "LIST" {
 		return ast.NonNullListType(parseTypeRef(response.OfType.OfType), &ast.Position{})
 	}
 
@@ -381,6 +387,9 @@ func parseTypeRef(response *IntrospectionTypeRef) *ast.Type {
 
 	// we could have just a non null
 	if response.Kind == "NON_NULL" {
+		if response.OfType == nil {
+			return ast.NonNullNamedType("", &ast.Position{})
+		}
 		return ast.NonNullNamedType(response.OfType.Name, &ast.Position{})
 	}
 
